@@ -744,7 +744,9 @@ def str_method(obj, name, args, kwargs):
         n = z3.Int(f"pieces({tagstr(obj.tag)},{args[0]!r})")
         ctx().assume(n >= 1)
         return Opaque(("split", obj.tag, args[0]), list, len=lambda o: SInt(n), truthy=True,
-                      unpack=lambda o, k: [Hole((obj.tag, "piece", i), "str") for i in range(k)])
+                      unpack=lambda o, k: [Hole((obj.tag, "piece", i), "str") for i in range(k)],
+                      getitem=lambda o, i: Hole((obj.tag, "piece", i), "str", nonempty=obj.nonempty) if isinstance(i, int) and i >= 0
+                      else (_ for _ in ()).throw(Unsupported("index into split() result")))
     if name in ("startswith", "endswith") and len(args) == 1 and isinstance(args[0], str) and len(args[0]) == 1:
         t = as_tmpl(obj)
         if not t.parts:
